@@ -161,6 +161,146 @@ theorem scan_loop_neg {S R : Type} {loop : (S → R) → (S → R) → List Int 
   rw [if_pos (ht.2 (by omega))]
   exact hb
 
+/-! ## the same scan written over `enumerate(self.lists)` -/
+
+/-- `list(enumerate(l, start))` (the translator's `PyRt.enumerate`, restated here so that this file does
+    not depend on the translator's version of the runtime library) -/
+def pyEnumerate {β : Type} : List β → Int → List (Int × β)
+  | [], _ => []
+  | x :: xs, i => (i, x) :: pyEnumerate xs (i + 1)
+
+/-- "`loop` is a scan over `enumerate(lists)`": the sub-list comes with the loop item instead of being
+    looked up in the state -/
+structure EnumShape {S R : Type} (loop : (S → R) → (S → R) → List (Int × List α) → S → R)
+    (rel : S → Int) (test : Int → List α → S → Prop)
+    (dec : ∀ x l s, Decidable (test x l s)) (exit : (S → R) → Int → List α → S → R)
+    (nxt : Int → List α → S → S) : Prop where
+  nil : ∀ k kb s, loop k kb [] s = k s
+  cons : ∀ k kb x l xs s, loop k kb ((x, l) :: xs) s =
+      @ite R (test x l s) (dec x l s) (exit kb x l s) (loop k kb xs (nxt x l s))
+  test_iff : ∀ x l s, test x l s ↔ rel s < PyRt.len l
+  nxt_rel : ∀ x l s, rel (nxt x l s) = rel s - PyRt.len l
+
+theorem EnumShape.of_swapped {S R : Type} {loop : (S → R) → (S → R) → List (Int × List α) → S → R}
+    {rel : S → Int} {ntest : Int → List α → S → Prop}
+    {dec : ∀ x l s, Decidable (ntest x l s)} {exit : (S → R) → Int → List α → S → R}
+    {nxt : Int → List α → S → S}
+    (nil : ∀ k kb s, loop k kb [] s = k s)
+    (cons : ∀ k kb x l xs s, loop k kb ((x, l) :: xs) s =
+      @ite R (ntest x l s) (dec x l s) (loop k kb xs (nxt x l s)) (exit kb x l s))
+    (ntest_iff : ∀ x l s, ntest x l s ↔ ¬ rel s < PyRt.len l)
+    (nxt_rel : ∀ x l s, rel (nxt x l s) = rel s - PyRt.len l) :
+    EnumShape loop rel (fun x l s => ¬ ntest x l s) (fun x l s => @instDecidableNot _ (dec x l s))
+      exit nxt where
+  nil := nil
+  cons := by
+    intro k kb x l xs s
+    rw [cons]
+    by_cases h : ntest x l s
+    · rw [if_pos h, if_neg (fun h' => h' h)]
+    · rw [if_neg h, if_pos h]
+  test_iff := by
+    intro x l s
+    rw [ntest_iff]
+    exact Classical.not_not
+  nxt_rel := nxt_rel
+
+theorem scan_enum {S R : Type} {loop : (S → R) → (S → R) → List (Int × List α) → S → R}
+    {rel : S → Int} {test : Int → List α → S → Prop}
+    {dec : ∀ x l s, Decidable (test x l s)} {exit : (S → R) → Int → List α → S → R}
+    {nxt : Int → List α → S → S}
+    (H : EnumShape loop rel test dec exit nxt) (k kb : S → R) :
+    ∀ (suf pre : List (List α)) (r : Nat) (s : S), rel s = r → suf ≠ [] →
+      ∃ s', rel s' = ((translate suf r).2 : Int) ∧
+        (∀ (f : S → List (List α)), (∀ x l s, f (nxt x l s) = f s) → f s' = f s) ∧
+        (loop k kb (pyEnumerate suf (PyRt.len pre)) s
+            = exit kb (PyRt.len pre + ((translate suf r).1 : Int))
+                (PyRt.index (pre ++ suf) (PyRt.len pre + ((translate suf r).1 : Int))) s' ∨
+         (loop k kb (pyEnumerate suf (PyRt.len pre)) s
+            = k (nxt (PyRt.len pre + ((translate suf r).1 : Int))
+                (PyRt.index (pre ++ suf) (PyRt.len pre + ((translate suf r).1 : Int))) s') ∧
+          PyRt.len pre + ((translate suf r).1 : Int) + 1 = PyRt.len (pre ++ suf))) := by
+  intro suf
+  induction suf with
+  | nil => intro pre r s _ h; exact absurd rfl h
+  | cons l rest ih =>
+    intro pre r s h2 _
+    have hl0 := PyRt.len_nonneg l
+    simp only [pyEnumerate]
+    rw [H.cons]
+    have ht := H.test_iff (PyRt.len pre) l s
+    have hn2 := H.nxt_rel (PyRt.len pre) l s
+    rw [h2] at ht
+    cases rest with
+    | nil =>
+      simp only [translate, pyEnumerate]
+      by_cases hlt : (r : Int) < PyRt.len l
+      · rw [if_pos (ht.2 hlt)]
+        exact ⟨s, h2, fun _ _ => rfl, Or.inl (by simp [PyRt.index_append_length])⟩
+      · rw [if_neg (fun h => hlt (ht.1 h)), H.nil]
+        exact ⟨s, h2, fun _ _ => rfl, Or.inr ⟨by simp [PyRt.index_append_length],
+          by rw [PyRt.len_append, PyRt.len_cons, PyRt.len_nil]; simp⟩⟩
+    | cons l' ls =>
+      by_cases hlt : (r : Int) < PyRt.len l
+      · have hlt' : r < l.length := by unfold PyRt.len at hlt; omega
+        rw [if_pos (ht.2 hlt)]
+        exact ⟨s, by rw [h2]; simp [translate, hlt'], fun _ _ => rfl,
+          Or.inl (by simp [translate, hlt', PyRt.index_append_length])⟩
+      · have hlt' : ¬ r < l.length := by unfold PyRt.len at hlt; omega
+        rw [if_neg (fun h => hlt (ht.1 h))]
+        have hpre : (PyRt.len pre + 1 : Int) = PyRt.len (pre ++ [l]) := by
+          rw [PyRt.len_append, PyRt.len_cons, PyRt.len_nil]; omega
+        have happ : pre ++ l :: l' :: ls = (pre ++ [l]) ++ (l' :: ls) := by simp
+        obtain ⟨s', hs1, hsf, hs2⟩ := ih (pre ++ [l]) (r - l.length) (nxt (PyRt.len pre) l s)
+          (by rw [hn2, h2]; simp only [PyRt.len]; omega) (by simp)
+        rw [← happ, ← hpre] at hs2
+        have hidx : PyRt.len pre + 1 + ((translate (l' :: ls) (r - l.length)).1 : Int)
+            = PyRt.len pre + ((translate (l :: l' :: ls) r).1 : Int) := by
+          simp only [translate, if_neg hlt']; push_cast; omega
+        rw [hidx] at hs2
+        refine ⟨s', ?_, fun f hf => by rw [hsf f hf, hf], hs2⟩
+        rw [hs1]; simp only [translate, if_neg hlt']
+
+/-- `scan_enum` from sub-list 0 as a rule for goals `loop k kb (enumerate(lists, 0)) s = v`; `hinv` says
+    that whatever the loop body leaves alone (e.g. the parameter field `self_lists`) is unchanged -/
+theorem scan_enum_eq {S R : Type} {loop : (S → R) → (S → R) → List (Int × List α) → S → R}
+    {rel : S → Int} {test : Int → List α → S → Prop}
+    {dec : ∀ x l s, Decidable (test x l s)} {exit : (S → R) → Int → List α → S → R}
+    {nxt : Int → List α → S → S}
+    (H : EnumShape loop rel test dec exit nxt)
+    (k kb : S → R) (s : S) (lists : List (List α)) (r : Nat) (v : R)
+    (h2 : rel s = r) (hne : lists ≠ [])
+    (hb : ∀ s', rel s' = ((translate lists r).2 : Int) →
+      (∀ (f : S → List (List α)), (∀ x l s, f (nxt x l s) = f s) → f s' = f s) →
+      exit kb ((translate lists r).1 : Int) (PyRt.index lists ((translate lists r).1 : Int)) s' = v)
+    (hk : ∀ s', rel s' = ((translate lists r).2 : Int) →
+      (∀ (f : S → List (List α)), (∀ x l s, f (nxt x l s) = f s) → f s' = f s) →
+      ((translate lists r).1 : Int) + 1 = PyRt.len lists →
+      k (nxt ((translate lists r).1 : Int) (PyRt.index lists ((translate lists r).1 : Int)) s') = v) :
+    loop k kb (pyEnumerate lists 0) s = v := by
+  obtain ⟨s', e2, ef, e3⟩ := scan_enum H k kb lists [] r s h2 hne
+  simp only [List.nil_append, PyRt.len_nil, Int.zero_add] at e2 e3
+  rcases e3 with e3 | ⟨e3, e4⟩
+  · rw [e3]; exact hb s' e2 ef
+  · rw [e3]; exact hk s' e2 ef e4
+
+/-- with a NEGATIVE `rel` the scan over `enumerate(lists)` leaves at sub-list 0 at once -/
+theorem scan_enum_neg {S R : Type} {loop : (S → R) → (S → R) → List (Int × List α) → S → R}
+    {rel : S → Int} {test : Int → List α → S → Prop}
+    {dec : ∀ x l s, Decidable (test x l s)} {exit : (S → R) → Int → List α → S → R}
+    {nxt : Int → List α → S → S}
+    (H : EnumShape loop rel test dec exit nxt)
+    (k kb : S → R) (s : S) (lists : List (List α)) (v : R)
+    (h2 : rel s < 0) (hne : lists ≠ [])
+    (hb : exit kb 0 (PyRt.index lists 0) s = v) :
+    loop k kb (pyEnumerate lists 0) s = v := by
+  obtain ⟨l, rest, rfl⟩ := List.exists_cons_of_ne_nil hne
+  have hl0 := PyRt.len_nonneg l
+  simp only [pyEnumerate]
+  rw [H.cons, if_pos ((H.test_iff 0 l s).2 (by omega))]
+  rw [PyRt.index_zero] at hb
+  exact hb
+
 /-- an index inside the first sub-list stays there (what a "head access" fast path returns) -/
 theorem translate_head (l : List α) (rest : List (List α)) (k : Nat) (h : k < l.length) :
     translate (l :: rest) k = (0, k) := by
